@@ -661,6 +661,62 @@ class SendRequest(Contract):
         I.oblige(self.name(f"no_exception_escapes[{e.cls_name}]"), z3.BoolVal(e.cls_name == "CancelledError"))
 
 
+class HandleMessageEvent(Contract):
+    """_handle_message_event(data): the guarantee G the exactly-once argument relies on, proved against the body: a
+    message event bearing the id of a PENDING request (whatever the id: 0 and "" included, int ids through their str
+    key) removes that request from the table and resolves its future with the message, delivering nothing; any other
+    message event is delivered to the read stream; the table is otherwise untouched; never raises."""
+    key = f"{TKEY}._handle_message_event"
+    prop = "C12"
+    covers = ("return",)
+
+    def setup(self, I):
+        I.c12 = self
+        self.delivered = []
+        s = I.fresh("event_data", S)
+        I.assume(ST.json_ok(s))
+        d = ST.json_val(s)
+        I.assume(z3.And(V.is_dict(d), Val.dsize(d) >= 1))
+        idv = z3.Select(Val.dvals(d), K("id"))
+        has_id = z3.Select(Val.dkeys(d), K("id"))
+        I.assume(z3.Implies(has_id, z3.Or(V.is_int(idv), V.is_str(idv), V.is_none(idv))))
+        self.d, self.idv, self.has_id = d, idv, has_id
+        pend = I.fresh("pending")
+        I.assume(z3.And(V.is_dict(pend), Val.dsize(pend) >= 0))
+        self.pend = pend
+        # the entry the event may refer to is a live future (table well-formedness, ground instance at that key)
+        self.key_str = P.to_str(I, idv)
+        fut = z3.Select(Val.dvals(pend), self.key_str)
+        self.fut = E.new_env_object(I, FUTURE12, done_flag=V.FALSE, has_result=V.FALSE, result=V.NONE)
+        I.assume(z3.Implies(z3.Select(Val.dkeys(pend), self.key_str), z3.And(fut == self.fut, Val.dsize(pend) >= 1)))
+        self.transport = I.new_object(klass(I), {"_pending_requests": pend, "_message_lock": E.new_env_object(I, LOCK)})
+        return [self.transport, V.VStr(s)], {}
+
+    def deliver(self, I, d):
+        self.delivered.append(d)
+
+    def post(self, I, result):
+        now, _ = I.get_field(self.transport, "_pending_requests")
+        answered = z3.And(self.has_id, z3.Not(V.is_none(self.idv)), z3.Select(Val.dkeys(self.pend), self.key_str))
+        n = len(self.delivered)
+        res, hr = I.get_field(self.fut, "has_result")
+        val, _ = I.get_field(self.fut, "result")
+        q = z3.String("hme!q")
+        I.oblige(self.name("an_event_for_a_pending_request_resolves_its_future_and_is_not_delivered"),
+                 z3.Implies(answered, z3.And(z3.BoolVal(n == 0), z3.Not(z3.Select(Val.dkeys(now), self.key_str)),
+                                             V.truthy(res), val == self.d)), watch={"event": self.d, "pending": self.pend})
+        I.oblige(self.name("any_other_event_is_delivered_exactly_once"),
+                 z3.Implies(z3.Not(answered), z3.And(z3.BoolVal(n == 1), (self.delivered[0] == self.d) if n == 1 else z3.BoolVal(False),
+                                                     now == self.pend)), watch={"event": self.d})
+        I.oblige(self.name("other_pending_requests_are_untouched"),
+                 z3.ForAll([q], z3.Implies(q != self.key_str,
+                                           z3.And(z3.Select(Val.dkeys(now), q) == z3.Select(Val.dkeys(self.pend), q),
+                                                  z3.Select(Val.dvals(now), q) == z3.Select(Val.dvals(self.pend), q)))))
+
+    def post_exc(self, I, e):
+        I.oblige(self.name(f"never_raises[{e.cls_name}]"), z3.BoolVal(e.cls_name == "CancelledError"))
+
+
 MODES = ("body_200", "event_then_ack", "ack_then_event", "silence", "other_status", "exception")
 _c12_contracts = C12.contracts
 _c12_install = C12.install
@@ -669,7 +725,7 @@ _c12_canaries = C12.canaries
 
 
 def _contracts12(self):
-    return _c12_contracts(self) + [SendRequest(m) for m in MODES]
+    return _c12_contracts(self) + [SendRequest(m) for m in MODES] + [HandleMessageEvent()]
 
 
 def _install12(self, ctx):
@@ -685,11 +741,13 @@ def _install12(self, ctx):
     ctx.extern_handlers["asyncio.wait_for"] = E.is_async(wait_for)
     ctx.extern_handlers["asyncio.Future"] = lambda I, a, k, n: FUTURE12.construct(I, a, k, n)
     ctx.extern_handlers["traceback.print_exc"] = lambda I, a, k, n: V.NONE
+    ctx.extern_handlers.setdefault("json.loads", lambda I, a, k, n: ST.LoadsModular().apply(I, a, k, n))
 
 
 def _modular12(self):
     m = _c12_modular(self)
     m[f"{TKEY}._route_incoming_message"] = RouteIncomingModular()
+    m[f"{ST.FASTJSON}::loads"] = ST.LoadsModular()
     return m
 
 
